@@ -1,4 +1,5 @@
 import ActixModel.Proofs.ReqPool
+import ActixModel.Proofs.ReqPoolSim
 /-
 C11 — requests are isolated: nothing from an earlier request is visible in a later one.
 
@@ -146,6 +147,23 @@ theorem C11_shutdown_releases (cfg : Cfg) (cap : Nat) (ops : List Op)
   have hen := runW_dead_disabled cfg ops (World.init cap) (by intro h; cases h) hdead
   have hheap := heap_empty_of_unreferenced h hnone (h.disabled hen)
   exact ⟨hheap, by simp [aliveApp, hdead, hheap]⟩
+
+/-! ## Refinement: recycling is unobservable -/
+
+/-- **C11_pool_transparent**: for every history, the outputs of *all* operations (every dump of
+every request, every dump through a stashed clone, every `ok`/`-`) are the same whatever the pool
+capacity — in particular the same as with capacity 0, i.e. a service that never recycles an
+allocation and builds every request with `HttpRequest::new`.  Proof: simulation up to a renaming
+of allocation ids (`Proofs/ReqPoolSim.lean`). -/
+theorem C11_pool_transparent (cfg : Cfg) (cap cap' : Nat) (ops : List Op) :
+    (run cfg (World.init cap) ops).2 = (run cfg (World.init cap') ops).2 :=
+  run_rel ops (init_inv cfg cap) (init_inv cfg cap') (init_rel cap cap')
+
+/-- the reference implementation really never recycles: with capacity 0 the pool stays empty -/
+theorem C11_no_pool_reference (cfg : Cfg) (ops : List Op) :
+    (runW cfg (World.init 0) ops).pool = [] := by
+  have := C11_pool_bounded cfg 0 ops
+  exact List.length_eq_zero_iff.mp (Nat.le_zero.mp this)
 
 /-! ## Non-vacuity: concrete histories that satisfy the hypotheses above (kernel-evaluated) -/
 
